@@ -21,12 +21,13 @@ import (
 
 // Group is a set of functions verified by one engine pass.
 type Group struct {
-	Layer string   // "D", "G", "O"
-	Pkg   string   // short package name
-	Funcs []string // contract keys (Layer D)
-	Ghost []vc.GhostVar
-	NoVC  bool                         // Layer O: text-level obligations only
-	Only  func(r driver.ObResult) bool // filter of the obligations that belong to this property
+	Layer      string   // "D", "G", "O"
+	Pkg        string   // short package name
+	Funcs      []string // contract keys (Layer D)
+	Ghost      []vc.GhostVar
+	DropAxioms []string                     // Layer D: labelled axioms not to be assumed
+	NoVC       bool                         // Layer O: text-level obligations only
+	Only       func(r driver.ObResult) bool // filter of the obligations that belong to this property
 }
 
 // Property describes how one property is decided.
@@ -92,7 +93,7 @@ func Run(ctx *Ctx, p *Property, level string) int {
 	for _, g := range p.Groups {
 		switch g.Layer {
 		case "D":
-			rs, err := ctx.L.VerifyD(g.Pkg, g.Funcs, vc.VerifyOpts{Ghost: g.Ghost}, ctx.Runner)
+			rs, err := ctx.L.VerifyD(g.Pkg, g.Funcs, vc.VerifyOpts{Ghost: g.Ghost, DropAxioms: g.DropAxioms}, ctx.Runner)
 			if err != nil {
 				fmt.Fprintf(os.Stderr, "gvc: engine error (property %s undecided): %v\n", p.ID, err)
 				return 2
